@@ -314,6 +314,9 @@ func runC09(c *core.Ctx) {
 					if m.Op == token.LSS && core.FieldKey(m.X) == "DefaultWorkerPool.workerCount" && core.FieldKey(m.Y) == "DefaultWorkerPoolSettings.workerSizeMaximum" {
 						if test, isI := m.X.(ssa.Instruction); isI && li.At[test].Has(fb+".lock", "W") && !unlockBetween(f, test, ins, fb+".lock") {
 							capOK = true
+							if why := c09sharedSettings(p, m.Y); why != "" {
+								c.Fail("R2", "pool-settings/per-instance", p.InstrPos(ins), "the worker maximum is read through "+why+": a setter called on one pool changes the cap of another, which can then run more than its own workerSizeMaximum jobs at once")
+							}
 						}
 					}
 				}
@@ -775,4 +778,74 @@ func c09wakes(p *core.Prog, cc *ssa.CallCommon, depth int) bool {
 		return 0
 	}, nil)
 	return min >= 1
+}
+
+
+// c09sharedSettings: v reads a settings field of the pool. Returns "" when the field lives in the pool object itself (or
+// behind a pointer that is only ever assigned objects freshly allocated for that pool), else a description of the
+// sharing.
+func c09sharedSettings(p *core.Prog, v ssa.Value) string {
+	ld, ok := core.Unwrap(v).(*ssa.UnOp)
+	if !ok || ld.Op != token.MUL {
+		return ""
+	}
+	x := ld.X
+	for depth := 0; depth < 6; depth++ {
+		switch y := x.(type) {
+		case *ssa.FieldAddr:
+			x = y.X
+			continue
+		case *ssa.UnOp:
+			if y.Op != token.MUL {
+				return ""
+			}
+			pf, isFA := y.X.(*ssa.FieldAddr)
+			if !isFA {
+				return ""
+			}
+			key := core.FieldKey(pf)
+			var fresh func(val ssa.Value, depth int) bool
+			fresh = func(val ssa.Value, depth int) bool {
+				val = core.Resolve(val)
+				switch z := val.(type) {
+				case *ssa.Alloc:
+					return true
+				case *ssa.Phi:
+					for _, e := range z.Edges {
+						if !fresh(e, depth+1) {
+							return false
+						}
+					}
+					return true
+				case *ssa.Call:
+					g := core.Callee(&z.Call)
+					if g == nil || !p.InRepo(g) || len(g.Blocks) == 0 || depth > 2 {
+						return false
+					}
+					okAll, n := true, 0
+					core.Instrs(g, func(ins ssa.Instruction) {
+						if r, isR := ins.(*ssa.Return); isR && r.Block() != g.Recover && len(r.Results) == 1 {
+							n++
+							if !fresh(r.Results[0], depth+1) {
+								okAll = false
+							}
+						}
+					})
+					return okAll && n > 0
+				}
+				return false
+			}
+			bad := ""
+			for _, f := range p.Funcs {
+				core.Instrs(f, func(ins ssa.Instruction) {
+					if st, isS := ins.(*ssa.Store); isS && core.FieldKey(st.Addr) == key && !fresh(st.Val, 0) {
+						bad = "the pointer " + key + ", which " + core.FuncName(f) + " sets to an object that is not allocated for this pool (" + p.InstrPos(ins) + ")"
+					}
+				})
+			}
+			return bad
+		}
+		return ""
+	}
+	return ""
 }
